@@ -1691,6 +1691,7 @@ class ScenarioOutline(Scenario):
                 if runner.config.stop or runner.aborted:
                     # -- FAIL-EARLY: Stop after first failure.
                     break
+        self.clear_status()  # -- ENFORCE: compute_status() after run.
         runner.context._set_root_attribute("active_outline", None)
         return failed_count > 0
 
